@@ -86,3 +86,15 @@ PROPS['C12'] = dict(
                  'an attempt that starts more than margin (150 ms + 2 attempt durations) after the context ended cannot be explained by the select race between timer and ctx.Done',
                  'scheduling delays stay below retMargin (400 ms) when the middleware must give up promptly'],
 )
+
+PROPS['C13'] = dict(
+    level='model_checking',
+    design=[D('MCPoison', 'MCPoison.cfg', coverage=True, allow_zero=[])],
+    traces={'PoisonTrace': dict(module='PoisonTrace', cfg='PoisonTrace.cfg')},
+    rule='runs = {handler ok with 0/2 outputs, sentinel error, other error, fmt-wrapped, pkg/errors-wrapped, custom wrapper type with Cause(), error with outputs} x '
+         '{PoisonQueue, filters: all, none, errors.Is sentinel, errors.As wrapper type, two text filters} x {poison publisher accepts, fails} x '
+         '{no metadata, metadata, pre-existing poison keys} x {stand-alone, inside a running Router}; distinct = distinct case; non-trivial = the handler failed',
+    exhaustive=True,
+    min_stats={'cases': 600},
+    assumptions=['the expected filter verdict is the verdict of the same filter function applied by the harness to the handler\'s own error value'],
+)
